@@ -183,3 +183,14 @@ package storage
 //@   let ierr := call[StorageCar.init#0]
 //@   call[newReadableWritable#0] assert same_configuration [C12]: ref(arg0) == ref(rw) && arg1 == roots && arg2 == opts
 //@   ensures initialised_store [C01,C12]: err == nil ==> result0 == sc && nerr == nil
+
+//@ func (ErrNotFound).NotFound
+//@   ensures always [C07]: result == true
+
+//@ func (ErrNotFound).Is
+//@   ensures matches_only_its_own_type [C07]: result == typeis(err, "v2/storage.ErrNotFound")
+
+//@ func IsNotFound
+//@   let nf := call[iface.NotFound#0]
+//@   check asks_the_error_itself [C07]: executed("iface.NotFound#0") ==> result == nf
+//@   check an_error_without_the_method_is_not_a_not_found [C07]: !executed("iface.NotFound#0") ==> result == false
